@@ -11,6 +11,8 @@ from ..common import cps, uncps, rec, classify
 from ..progprop import STD_TRUSTED
 
 IDENTS = ["", "1234", "x", "a:b", ":", "a/b", "#f", "a b", "é", "x::y", "𝔘1", "tab\there", 'q"uote', "nl\nhere", "cr\rhere",
+          # characters at which str.splitlines breaks although they end no row of a csv file
+          "vt\x0bhere", "ff\x0chere", "fs\x1chere", "nel\x85here", "ls\u2028here", "ps\u2029here",
           "cr\r\nlf", "0", "00", " "]
 PREFIXES = ["GO", "go", "CHEBI", "a", "A", "", "x.y", "ß", "doi", "a b", "_", "é", "unknownprefix"]
 NAMES = [None, "name", "", "other name", "é"]
